@@ -800,6 +800,10 @@ func (e *Env) evalCall(x *ECall) (TV, error) {
 					return TV{}, err
 				}
 				sorts = append(sorts, g.sortOf(pt))
+				if as := g.sortOf(a.ty); as != g.sortOf(pt) && !(g.sortOf(pt) == "Int" && as == "Int") {
+					// the code's types changed under the contract: a binding error, not a query the solver rejects
+					return TV{}, fmt.Errorf("ghost %s: argument %d has type %s, the declaration wants %s", x.Fn, i+1, a.ty, gd.Params[i].Type)
+				}
 			}
 		}
 		if len(args) != len(gd.Params) {
